@@ -157,10 +157,39 @@ def run(chk, facts):
             f_, at = bool_formula(te["args"][0], canon2)
             if set(at) <= {"I", "ACC"}:
                 tail_ok = equivalent(f_, at, lambda v: (not v.get("I", False)) or v.get("ACC", False))[0]
-        ok = outer_ok and inner_ok and early and tail_ok and acc_ok
+        # no other way out: every `return` of the function is one of the two reviewed rejections (the emptiness guard before the loop,
+        # the uncovered member inside it). A shortcut such as "fewer members than other => false" is sound for plain sets, not for
+        # unions ordered by subtyping, where one member of self can cover several of other.
+        from .c11 import parents_map as _pm2
+        pmap = _pm2(fn["body"])
+        extra_exit = None
+        for rn in [n for n in walk(fn["body"]) if n.get("k") == "return"]:
+            cur, cond = rn, None
+            while True:
+                par, key = pmap.get(id(cur), (None, None))
+                if par is None:
+                    break
+                if par.get("k") == "if" and key == "then":
+                    cond = par["c"]
+                    break
+                if par.get("k") == "closure":
+                    break
+                cur = par
+            if cond is None:
+                extra_exit = extra_exit or "an unconditional return"
+                continue
+            cs_ = src(strip(cond)).replace(" ", "")
+            if cs_ in ("(!self.is_empty()&&other.is_empty())", "!self.is_empty()&&other.is_empty()"):
+                continue
+            f_, at = bool_formula(inline_lets({"k": "block", "stmts": lp["body"]["stmts"] + [{"k": "expr", "e": cond, "semi": False}]}, typed=True)["stmts"][-1]["e"], canon) \
+                if any(x is rn for x in walk(lp["body"])) else (None, None)
+            if f_ is not None and set(at) <= {"I", "C"} and equivalent(f_, at, lambda v: (not v.get("I", False)) and (not v.get("C", False)))[0]:
+                continue
+            extra_exit = extra_exit or f"`if {cs_[:70]} {{ {src(rn)[:30]} }}`"
+        ok = outer_ok and inner_ok and early and tail_ok and acc_ok and extra_exit is None
         chk.ob("R-C20-2", "forall-exists", ok,
                "for every member of other some member of self accepts it; the first uncovered member rejects" if ok else
-               f"Name::is_superset_of lost its for-all/exists shape (outer loop {outer_ok}, inner any {inner_ok}, early reject {early}, accumulator {acc_ok}, result {tail_ok}): "
+               f"Name::is_superset_of lost its for-all/exists shape (outer loop {outer_ok}, inner any {inner_ok}, early reject {early}, accumulator {acc_ok}, result {tail_ok}, other exit: {extra_exit}): "
                "a union can be accepted although one of its members is not", loc)
         first = strip(fn["body"]["stmts"][0]["e"]) if fn["body"]["stmts"][0].get("k") == "expr" else None
         ok = first is not None and first.get("k") == "if" and src(strip(first["c"])).replace(" ", "") == "(!self.is_empty()&&other.is_empty())" and "Ok(false)" in src(first["then"])
